@@ -548,6 +548,123 @@ theorem kind_only (rows : List R) :
     (run kindOf rows).map (Block.mapRows kindOf) = run id (rows.map kindOf) := by
   simpa [run, initSt, St.mapRows] using go_map kindOf 0 initSt rows
 
+/-! ### block shape: the type of a block is the kind of its first row, the other rows continue it -/
+
+/-- the kind a block's first row must have, by block type.  METADATA (only ever the block at the very top) starts
+    with an ordinary or a `key:` row; a BLANK block starts with the kept blank row or the `key:` row that began it,
+    or — when that row was dropped (no payload) — with the first ordinary row after it. -/
+def HeadOK (ty : BT) (k : Kind) : Prop :=
+  match ty with
+  | .table => k = .tbl
+  | .directive => k = .dir
+  | .template => k = .tpl
+  | .metadata => k = .plain ∨ k = .mta
+  | .blank => k = .plain ∨ k = .mta ∨ k = .blankRow true
+
+/-- the kind of every further row: an ordinary row; inside METADATA also a `key:` row -/
+def TailOK (ty : BT) (k : Kind) : Prop := k = .plain ∨ (ty = .metadata ∧ k = .mta)
+
+def GridOK (ty : BT) (grid : List R) : Prop :=
+  match grid with
+  | [] => ty = .metadata ∨ ty = .blank
+  | r :: rest => HeadOK ty (kindOf r) ∧ ∀ x ∈ rest, TailOK ty (kindOf x)
+
+theorem gridOK_append_plain (ty : BT) (grid : List R) (r : R) (h : GridOK kindOf ty grid)
+    (hk : kindOf r = .plain) : GridOK kindOf ty (grid ++ [r]) := by
+  cases grid with
+  | nil =>
+    rcases h with h | h <;> subst h <;> simp [GridOK, HeadOK, hk]
+  | cons x xs =>
+    show GridOK kindOf ty (x :: (xs ++ [r]))
+    refine ⟨h.1, ?_⟩
+    intro y hy
+    rcases List.mem_append.1 hy with hy | hy
+    · exact h.2 y hy
+    · rw [List.mem_singleton.1 hy]; exact Or.inl hk
+
+theorem gridOK_append_mta (grid : List R) (r : R) (h : GridOK kindOf .metadata grid)
+    (hk : kindOf r = .mta) : GridOK kindOf .metadata (grid ++ [r]) := by
+  cases grid with
+  | nil => simp [GridOK, HeadOK, hk]
+  | cons x xs =>
+    show GridOK kindOf .metadata (x :: (xs ++ [r]))
+    refine ⟨h.1, ?_⟩
+    intro y hy
+    rcases List.mem_append.1 hy with hy | hy
+    · exact h.2 y hy
+    · rw [List.mem_singleton.1 hy]; exact Or.inr ⟨rfl, hk⟩
+
+theorem gridOK_step (s : St R) (i : Nat) (r : R) (h : GridOK kindOf s.state s.grid) :
+    GridOK kindOf (step kindOf s i r).1.state (step kindOf s i r).1.grid := by
+  unfold step switch
+  cases hk : kindOf r with
+  | plain => exact gridOK_append_plain kindOf s.state s.grid r h hk
+  | mta =>
+    by_cases hm : s.state = .metadata
+    · simp only [hm, if_true]
+      rw [hm] at h
+      exact gridOK_append_mta kindOf s.grid r h hk
+    · simp [hm, GridOK, HeadOK, hk]
+  | blankRow keep =>
+    by_cases hb : s.state = .blank
+    · simpa [hb] using h
+    · cases keep <;> simp [hb, GridOK, HeadOK, hk]
+  | tbl => simp [GridOK, HeadOK, hk]
+  | dir => simp [GridOK, HeadOK, hk]
+  | tpl => simp [GridOK, HeadOK, hk]
+
+/-- what the shape of an emitted block is -/
+def ShapeOK (b : Block R) : Prop :=
+  ∃ r rest, b.rows = r :: rest ∧ HeadOK b.ty (kindOf r) ∧ ∀ x ∈ rest, TailOK b.ty (kindOf x)
+
+theorem emit_shape (s : St R) (h : GridOK kindOf s.state s.grid) : ∀ b ∈ emit s, ShapeOK kindOf b := by
+  intro b hb
+  unfold emit at hb
+  split at hb
+  · simp at hb
+  · rename_i x xs hg
+    simp only [List.mem_singleton] at hb
+    subst hb
+    rw [hg] at h
+    exact ⟨x, xs, hg, h.1, h.2⟩
+
+theorem go_shape (i : Nat) (s : St R) (rs : List R) (h : GridOK kindOf s.state s.grid) :
+    ∀ b ∈ go kindOf i s rs, ShapeOK kindOf b := by
+  induction rs generalizing i s with
+  | nil => simpa [go] using emit_shape kindOf s h
+  | cons r rs ih =>
+    intro b hb
+    simp only [go, List.mem_append] at hb
+    rcases hb with hb | hb
+    · rcases step_emits kindOf s i r with e | e
+      · simp [e] at hb
+      · rw [e] at hb; exact emit_shape kindOf s h b hb
+    · exact ih (i + 1) _ (gridOK_step kindOf s i r h) b hb
+
+/-- **block shape** (the marker and continuation rules, for whole inputs): every delivered block starts with a row
+    of the kind its type says — a `**name` row for TABLE, `***name` for DIRECTIVE, a colon row for TEMPLATE_ROW — and
+    all its further rows are ordinary rows that continue it (inside the METADATA block at the top also `key:`
+    rows); no row of a block has a blank first cell except a kept first row of a BLANK block. -/
+theorem block_shape (rows : List R) : ∀ b ∈ run kindOf rows, ShapeOK kindOf b := by
+  have := go_shape kindOf 0 initSt rows (by simp [initSt, GridOK])
+  simpa [run] using this
+
+/-- **the type of a block is decided by its first row**: a block is a TABLE / DIRECTIVE / TEMPLATE_ROW block exactly
+    when its first row is a `**` / `***` / colon row -/
+theorem type_of_first_row (rows : List R) (b : Block R) (hb : b ∈ run kindOf rows) :
+    ∃ r rest, b.rows = r :: rest ∧
+      (b.ty = .table ↔ kindOf r = .tbl) ∧ (b.ty = .directive ↔ kindOf r = .dir) ∧
+      (b.ty = .template ↔ kindOf r = .tpl) := by
+  obtain ⟨r, rest, hr, hh, _⟩ := block_shape kindOf rows b hb
+  refine ⟨r, rest, hr, ?_⟩
+  unfold HeadOK at hh
+  cases hty : b.ty <;> rw [hty] at hh <;> simp only [] at hh
+  · simp [hh]
+  · simp [hh]
+  · simp [hh]
+  · rcases hh with hh | hh <;> simp [hh]
+  · rcases hh with hh | hh | hh <;> simp [hh]
+
 /-! ### the individual transition rules of the statement -/
 
 /-- `**x` starts a table, `***x` a directive, colons a template row — whatever the state -/
@@ -595,6 +712,15 @@ theorem segment_origin_rows_increasing (rows : List Row) :
 
 theorem segment_origin_row (rows : List Row) : ∀ b ∈ segment rows, BlockOK rowKind rows b :=
   origin_row rowKind rows
+
+theorem segment_block_shape (rows : List Row) : ∀ b ∈ segment rows, ShapeOK rowKind b :=
+  block_shape rowKind rows
+
+theorem segment_type_of_first_row (rows : List Row) (b : Block Row) (hb : b ∈ segment rows) :
+    ∃ r rest, b.rows = r :: rest ∧
+      (b.ty = .table ↔ rowKind r = .tbl) ∧ (b.ty = .directive ↔ rowKind r = .dir) ∧
+      (b.ty = .template ↔ rowKind r = .tpl) :=
+  type_of_first_row rowKind rows b hb
 
 /-- the first-cell kind of a native row is decided by the first cell alone -/
 theorem rowKind_first_cell (c : Cell) (r1 r2 : List Cell) (h : r1.isEmpty = r2.isEmpty) :
